@@ -1,4 +1,77 @@
+(* C06: the backend health state machine follows the configured thresholds.  Property theorems only.
+   Model: model/Health.v - state (avail, failNum, succNum, live checkers with an outstanding check, released,
+   restarted, thresholds); operations ReqFail n (n OnFail calls), ReqSucc (OnSuccess), CheckOk / CheckFail (result of
+   the outstanding health check), Release (reload removed the backend), SetThr (check conf changed).
+   h_init ft st = fresh backend; hrun s ops = the list of states after each operation.
+   Timers and sockets are outside the model: the outcome of each health check is an input. *)
 From Coq Require Import List ZArith Bool.
-From Bfe Require Import lib.Val model.Health run.RunC06.
-Theorem C06_placeholder : True. Proof. exact I. Qed.
-Print Assumptions C06_placeholder.
+From Bfe Require Import lib.Val model.Health run.RunC06 proofs.HealthProofs.
+Import ListNotations.
+Open Scope Z_scope.
+
+(* At most one health checker exists in every reachable state, for every history. *)
+Theorem C06_single_checker : forall ft st ops s,
+  In s (hrun (h_init ft st) ops) -> 0 <= checkers s <= 1.
+Proof. exact single_checker. Qed.
+Print Assumptions C06_single_checker.
+
+(* A checker runs only while the backend is out of rotation, and a backend that is out of rotation and has
+   not been removed is being checked (so it can come back). *)
+Theorem C06_checker_iff_out : forall ft st ops s, In s (hrun (h_init ft st) ops) ->
+  (avail s = true -> checkers s = 0) /\ (avail s = false -> released s = false -> checkers s = 1).
+Proof. exact checker_iff_out. Qed.
+Print Assumptions C06_checker_iff_out.
+
+(* The backend leaves rotation exactly at a request failure (group) that brings the consecutive failure count
+   failNum (reset by OnSuccess and by the return to rotation) to the configured threshold; no other operation
+   takes it out. *)
+Theorem C06_out_iff_threshold : forall s o,
+  (avail s = true /\ avail (hstep s o) = false) <->
+  (exists n, o = ReqFail n /\ avail s = true /\ failN s + n >= failT s).
+Proof. exact out_iff_threshold. Qed.
+Print Assumptions C06_out_iff_threshold.
+
+(* It returns to rotation exactly at a successful health check that completes succNum + 1 >= threshold, where the
+   threshold is the one configured when that check was issued (check() reads the conf before CheckConnect). *)
+Theorem C06_back_after_succT : forall s o,
+  (avail s = false /\ avail (hstep s o) = true) <->
+  (o = CheckOk /\ avail s = false /\ checkers s >= 1 /\ succN s + 1 >= reqT s).
+Proof. exact back_iff_succ. Qed.
+Print Assumptions C06_back_after_succT.
+
+(* succNum counts CONSECUTIVE successful checks: a failed check resets it, a success below the threshold adds one
+   and leaves availability unchanged; and whenever no checker runs on a live backend succNum is 0. *)
+Theorem C06_consecutive_successes : forall s, checkers s >= 1 ->
+  succN (hstep s CheckFail) = 0 /\
+  (succN s + 1 < reqT s -> succN (hstep s CheckOk) = succN s + 1 /\ avail (hstep s CheckOk) = avail s).
+Proof. exact check_counts. Qed.
+Print Assumptions C06_consecutive_successes.
+Theorem C06_succnum_zero_at_start : forall ft st ops s, In s (hrun (h_init ft st) ops) ->
+  checkers s = 0 -> released s = false -> succN s = 0.
+Proof. exact succnum_zero_at_start. Qed.
+Print Assumptions C06_succnum_zero_at_start.
+
+(* A backend removed by reload stops being checked: after Release no operation starts a checker, and the
+   outstanding check (if any) is the last one. *)
+Theorem C06_release_stops : forall s o, released s = true ->
+  released (hstep s o) = true /\ checkers (hstep s o) <= checkers s /\
+  ((o = CheckOk \/ o = CheckFail) -> checkers s >= 1 -> checkers (hstep s o) = checkers s - 1).
+Proof. exact release_stops. Qed.
+Print Assumptions C06_release_stops.
+
+(* Wire level: for every well-formed input the model's observations satisfy prop_C06, the specification monitor
+   (model/Health.v mon_step: own bookkeeping of consecutive failures / successes, written from the property text). *)
+Theorem C06_prop_of_model : forall i, dec_input i <> None -> prop_C06 i (run_C06 i) = true.
+Proof. exact model_satisfies_prop. Qed.
+Print Assumptions C06_prop_of_model.
+
+(* Non-vacuity: threshold 3/2, a success resets the failure run, leaves at the 3rd consecutive failure, a failed check
+   resets the success run, comes back, leaves again, is released while a check is outstanding. *)
+Example C06_ex_run :
+  map (fun s => (avail s, checkers s)) (hrun (h_init 3 2) ex_ops) =
+  [(true,0);(true,0);(true,0);(true,0);(false,1);(false,1);(false,1);(false,1);(false,1);(true,0);(false,1);(false,1);(false,0);(false,0)].
+Proof. exact ex_run. Qed.
+Example C06_ex_wire :
+  let i := VL [VZ 2; VZ 2; VL [VL [VZ 1; VZ 1]; VL [VZ 1; VZ 3]; VL [VZ 3]; VL [VZ 6; VZ 1; VZ 1]; VL [VZ 3]; VL [VZ 5]; VL [VZ 4]]] in
+  dec_input i <> None /\ run_C06 i <> VErr 0.
+Proof. exact ex_wire. Qed.
